@@ -1947,6 +1947,13 @@ class MultiSpeciesLattice(Lattice):
                 new_pairs[onsite_pair_key] = onsite_pair_val
         return new_pairs
 
+    def enlarge_mps_unit_cell(self, factor=2):
+        # doc: see Lattice
+        super().enlarge_mps_unit_cell(factor)
+        # keep `simple_lattice` (used by `ordering`) consistent with the new shape
+        self.simple_lattice = self.simple_lattice.copy()
+        self.simple_lattice.enlarge_mps_unit_cell(factor)
+
     def ordering(self, order):
         """Define orderings as for the `simple_lattice` with priority for within the unit cell.
 
